@@ -658,6 +658,8 @@ func luaAgree(v t38.Value, j any, outer string) string {
 const (
 	idEvalBigNum = "resp-eval-number-beyond-int64"
 	idEvalErrOK  = "eval-error-result-ok-in-json"
+
+	idClientListTyped = "json-client-list-typed-name"
 )
 
 // luaKeyAgree: a table key as RESP shows it vs the JSON member name.
@@ -1235,11 +1237,16 @@ func agree(args []string, v t38.Value, r t38.JSONReply, tnt *taint) (outcome, di
 		if d := only(top, "list"); d != "" || !ok || !ok2 {
 			return "ok", fmt.Sprintf("client list shape: RESP %s, JSON %s", v, r.Raw)
 		}
+		var rnames, jnames []string
 		for _, line := range strings.Split(strings.TrimSuffix(t, "\n"), "\n") {
 			for _, k := range []string{"id=", " addr=", " name=", " age=", " idle="} {
 				if !strings.Contains(line, k) {
 					return "ok", fmt.Sprintf("client list line %q lacks %q", line, k)
 				}
+			}
+			_, rest, _ := strings.Cut(line, " name=")
+			if n, _, _ := strings.Cut(rest, " age="); n != "" {
+				rnames = append(rnames, n)
 			}
 		}
 		for _, e := range arr {
@@ -1252,6 +1259,28 @@ func agree(args []string, v t38.Value, r t38.JSONReply, tnt *taint) (outcome, di
 					return "ok", fmt.Sprintf("client list entry %v lacks %q", e, k)
 				}
 			}
+			// name and addr are texts: a name that reads like a number or a
+			// boolean must not come back typed (finding json-client-list-typed-name)
+			for _, k := range []string{"name", "addr"} {
+				if _, isStr := m[k].(string); !isStr {
+					return "ok", fmt.Sprintf("{{%s}}JSON CLIENT LIST shows %s as %v (%T), RESP CLIENT LIST has %q", idClientListTyped, k, m[k], m[k], clip(t, 200))
+				}
+			}
+			for _, k := range []string{"id", "age", "idle"} {
+				if _, isNum := m[k].(json.Number); !isNum {
+					return "ok", fmt.Sprintf("JSON CLIENT LIST shows %s as %v", k, m[k])
+				}
+			}
+			if n := m["name"].(string); n != "" {
+				jnames = append(jnames, n)
+			}
+		}
+		// the named connections are the lock-step lanes, which received the
+		// same CLIENT SETNAME commands on every server
+		sort.Strings(rnames)
+		sort.Strings(jnames)
+		if strings.Join(rnames, " ") != strings.Join(jnames, " ") {
+			return "ok", fmt.Sprintf("{{%s}}client names differ: RESP %q, JSON %q", idClientListTyped, rnames, jnames)
 		}
 		return "ok", ""
 	case "client getname":
